@@ -66,10 +66,19 @@ func (c cacheMsgs) commit(ctx sdk.Context, k common.KeeperOracle) {
 	}
 	index, _ := k.GetIndexRecentMsg(ctx)
 
+	// in the first MaxNonce blocks of a chain nothing is old enough to be dropped; the unsigned
+	// subtraction must not wrap around there, otherwise every stored block is removed and a node
+	// restarted at such a height rebuilds its memory without the messages of the open window.
+	var oldest uint64
+	// #nosec G115
+	if block > uint64(common.MaxNonce) {
+		// #nosec G115
+		oldest = block - uint64(common.MaxNonce)
+	}
 	i := 0
 	for ; i < len(index.Index); i++ {
 		b := index.Index[i]
-		if b > block-uint64(common.MaxNonce) {
+		if b > oldest {
 			break
 		}
 		k.RemoveRecentMsg(ctx, b)
@@ -115,10 +124,17 @@ func (c *cacheParams) add(p ItemP) {
 func (c *cacheParams) commit(ctx sdk.Context, k common.KeeperOracle) {
 	block := uint64(ctx.BlockHeight())
 	index, _ := k.GetIndexRecentParams(ctx)
+	// (no wrap-around of the unsigned subtraction in the first MaxNonce blocks, see cacheMsgs.commit)
+	var oldest uint64
+	// #nosec G115
+	if block > uint64(common.MaxNonce) {
+		// #nosec G115
+		oldest = block - uint64(common.MaxNonce)
+	}
 	i := 0
 	for ; i < len(index.Index); i++ {
 		b := index.Index[i]
-		if b >= block-uint64(common.MaxNonce) {
+		if b >= oldest {
 			break
 		}
 		k.RemoveRecentParams(ctx, b)
